@@ -21,6 +21,10 @@ pub enum Expr {
 	B(Box<Expr>),
 	F(Box<Expr>),
 	T(Box<Expr>),
+	/// built with the unchecked-at-runtime constructors: `new` (ctor 0) / `new_ref` (ctor 1)
+	Bn(u8, Box<Expr>),
+	Fn(Box<Expr>),
+	Tn(u8, Box<Expr>),
 	O(usize, Box<Expr>),
 	C(usize),
 }
@@ -35,6 +39,9 @@ impl Expr {
 			Expr::B(e) => format!("B({})", e.text()),
 			Expr::F(e) => format!("F({})", e.text()),
 			Expr::T(e) => format!("T({})", e.text()),
+			Expr::Bn(c, e) => format!("B{}({})", if *c == 0 { "!" } else { "&" }, e.text()),
+			Expr::Fn(e) => format!("F!({})", e.text()),
+			Expr::Tn(c, e) => format!("T{}({})", if *c == 0 { "!" } else { "&" }, e.text()),
 			Expr::O(a, e) => format!("O{a}({})", e.text()),
 			Expr::C(j) => format!("c{j}"),
 		}
@@ -86,9 +93,29 @@ fn parse_expr(s: &[u8], i: &mut usize) -> Option<Expr> {
 			}
 			Expr::V(v)
 		}
-		b'B' => Expr::B(Box::new(paren(s, i)?)),
-		b'F' => Expr::F(Box::new(paren(s, i)?)),
-		b'T' => Expr::T(Box::new(paren(s, i)?)),
+		b'B' | b'F' | b'T' => {
+			let ctor = match s.get(*i) {
+				Some(b'!') => {
+					*i += 1;
+					Some(0u8)
+				}
+				Some(b'&') => {
+					*i += 1;
+					Some(1u8)
+				}
+				_ => None,
+			};
+			let e = Box::new(paren(s, i)?);
+			match (c, ctor) {
+				(b'B', None) => Expr::B(e),
+				(b'F', None) => Expr::F(e),
+				(b'T', None) => Expr::T(e),
+				(b'B', Some(k)) => Expr::Bn(k, e),
+				(b'F', Some(0)) => Expr::Fn(e),
+				(b'T', Some(k)) => Expr::Tn(k, e),
+				_ => return None,
+			}
+		}
 		b'P' => {
 			let p = parse_nat(s, i)?;
 			Expr::P(p, Box::new(paren(s, i)?))
@@ -358,7 +385,9 @@ fn max_owned_addr(e: &Expr) -> usize {
 	match e {
 		Expr::M(_) | Expr::R(_) | Expr::C(_) => 0,
 		Expr::V(v) => v.iter().map(max_owned_addr).max().unwrap_or(0),
-		Expr::P(_, e) | Expr::B(e) | Expr::F(e) | Expr::T(e) => max_owned_addr(e),
+		Expr::P(_, e) | Expr::B(e) | Expr::F(e) | Expr::T(e) | Expr::Bn(_, e) | Expr::Fn(e) | Expr::Tn(_, e) => {
+			max_owned_addr(e)
+		}
 		Expr::O(a, e) => (*a).max(max_owned_addr(e)),
 	}
 }
@@ -404,6 +433,8 @@ impl Case {
 			Node::F(c) => Node::F(c),
 			Node::T(c) => Node::T(c),
 			Node::O(c) => Node::O(c),
+			Node::Bref(c) => Node::Bref(c),
+			Node::Tref(c) => Node::Tref(c),
 		}
 	}
 
@@ -430,6 +461,31 @@ impl Case {
 			Expr::T(e) => {
 				let inner = self.build_expr(e, b);
 				Node::T(leak(RetryingLockCollection::try_new(inner).expect("generator gave duplicates to T")))
+			}
+			Expr::Bn(c, e) => {
+				let inner = self.build_expr(e, b);
+				if *c == 0 {
+					Node::B(leak(BoxedLockCollection::new(inner)))
+				} else {
+					// `new_ref` yields a BoxedLockCollection<&Node>
+					let r: &'static Node = leak(inner);
+					let coll: &'static BoxedLockCollection<&'static Node> = leak(BoxedLockCollection::new_ref(r));
+					Node::Bref(coll)
+				}
+			}
+			Expr::Fn(e) => {
+				let inner = leak(self.build_expr(e, b));
+				Node::F(leak(RefLockCollection::new(inner)))
+			}
+			Expr::Tn(c, e) => {
+				let inner = self.build_expr(e, b);
+				if *c == 0 {
+					Node::T(leak(RetryingLockCollection::new(inner)))
+				} else {
+					let r: &'static Node = leak(inner);
+					let coll: &'static RetryingLockCollection<&'static Node> = leak(RetryingLockCollection::new_ref(r));
+					Node::Tref(coll)
+				}
 			}
 			Expr::O(a, e) => {
 				let inner = self.build_expr(e, b);
